@@ -211,7 +211,7 @@ class WsgiRig:
             seen['markup'] = show(mk) if mk is not None else 'no-markup'
             rq.setup(dict(max_memfile_size=1 << 20, errors_map=app.config.errors_map))
             forms, files = rq.forms, rq.files
-            seen['forms'] = sorted((k, repr(forms.getall(k) if hasattr(forms, 'getall') else forms[k])) for k in forms)
+            seen['forms'] = sorted((k, repr(forms[k])) for k in forms)
             seen['files'] = sorted((k, repr([(f.filename, f.file.read()) for f in
                                              (files[k] if isinstance(files[k], list) else [files[k]])])) for k in files)
             return 'ok'
@@ -252,11 +252,14 @@ class C06(Check):
     props_mod = 'OmbottModel.Props.C06'
     tables = ['multipart']
     design_ref = '6/C06'
-    level_text = ('Lean theorems over a line-by-line model of MatchTail/HeadersEaeter/BodyMarkuper/MultipartMarkup: the '
-                  'markup of every chunking of an input equals that of a byte-at-a-time reference machine wherever that '
-                  'machine is defined, which includes every prefix of every well-formed body (any boundary, parts, '
-                  'look-alike-rich data, epilogue); exact section ranges for complete bodies. Model tied to the code by a '
-                  'differential run over all prefixes x single/double/stride cuts and a malformed stream on every run.')
+    level_text = ('Lean theorems over a line-by-line model of MatchTail/HeadersEaeter/BodyMarkuper/MultipartMarkup: '
+                  'parse_refines_R (every chunking of an input gives the markups/error/stopped of a byte-at-a-time '
+                  'reference machine wherever that machine is defined), markup_split_independent (every prefix of every '
+                  'well-formed body, every division into chunks = one piece; full strength, no partial), feed_append, '
+                  'eatData_refines_R / eatData_first_occurrence (delimiter scanner = first occurrence, arbitrary data), '
+                  'eater_refines_R, section_ranges_exact / section_contents_exact, markup_total (arbitrary input: no loop '
+                  'bound reached, only the three multipart error classes). Model tied to the code by a differential run '
+                  'over all prefixes x single/double/stride cuts, a malformed stream and WSGI posts on every run.')
     level_note_extra = 're (end_headers_patt) is re-expressed as a direct function and probed exhaustively on short strings'
     anchors = ['ombott/request_pkg/multipart.py', 'ombott/request_pkg/body_mixin.py']
     rule = ('bodies from part lists (boundaries of length 1-40 incl. "-", "--", letters; data over CR, LF, "-", delimiter '
@@ -310,10 +313,15 @@ class C06(Check):
             self.bump('len<=%d' % (40 if len(body) <= 40 else 80 if len(body) <= 80 else 150))
             self.bump('parts=%d' % len(parts))
             pairs = small and len(body) <= 44
-            step = 1 if len(body) <= 90 else 2
-            for plen in range(0, len(body) + 1, step):
+            zs = zones(b, parts, epi)
+            for c in range(1, len(body)):
+                self.bump('cut@' + zone_of_cut(zs, c))
+            step = 1 if (len(body) <= 90 or n > 200) else 2
+            for plen in sorted(set(range(0, len(body) + 1, step)) | {len(body)}):
                 p = body[:plen]
                 sets = self._cutsets_for(rng, plen, tlen, pairs)
+                if plen == len(body):
+                    sets += [stride_cuts(plen, k) for k in range(1, 17) if k < plen]
                 res = [real_parse(b, cut(p, s)) for s in sets]
                 self.bump('cutsets', len(sets))
                 out.append((f'mp cuts {hb(b)} {hb(p)} {cutsets_str(sets)}', compress(res),
@@ -402,6 +410,16 @@ class C06(Check):
         what = 'error' if e1 != e2 else ('stopped' if one.split(' s=')[1] != pieces.split(' s=')[1] else 'markups')
         return f'C06:cut@{p_zone}:{what}:{e2}'
 
+    @staticmethod
+    def _ctx_key(body, cuts, one, pieces):
+        """site fingerprint when the part structure is not known: the classes of the two bytes on
+        either side of the (first) cut"""
+        cls = lambda x: {13: 'CR', 10: 'LF', 45: 'HY'}.get(x, 'x')
+        c = cuts[0] if cuts else 0
+        ctx = '.'.join(cls(x) for x in body[max(0, c - 2):c]) + '|' + '.'.join(cls(x) for x in body[c:c + 2])
+        e2 = pieces.split(' e=')[1].split()[0]
+        return 'C06:cut-context:%s:%s%s' % (ctx, e2, '' if len(cuts) == 1 else ':multi')
+
     def _try(self, findings, b, parts, epi, plen, cuts):
         body = encode(b, parts, epi)[:plen]
         one = real_parse(b, [body])
@@ -432,26 +450,33 @@ class C06(Check):
                 one, pieces = real_parse(b, [body]), real_parse(b, cut(body, cuts))
                 evals += 1
                 if one != pieces:
-                    findings.append(Finding('C06:seed:' + pieces.split(' e=')[1].split()[0],
-                                            f'one piece: {one} / pieces: {pieces}',
+                    single = [c for c in cuts if real_parse(b, cut(body, [c])) != one]
+                    if single:
+                        cuts = single[:1]
+                        pieces = real_parse(b, cut(body, cuts))
+                    findings.append(Finding(self._ctx_key(body, cuts, one, pieces),
+                                            f'one piece: {one} / cut at {cuts}: {pieces}',
                                             dict(kind='unit', boundary=b.hex(), body=body.hex(), cuts=cuts)))
             except Exception:
                 pass
         # exhaustive single + double cuts on all prefixes of small bodies, strides on larger ones
         for i in range(n):
             small = i % 3 != 2
+            medium = n > 200 and i % 100 == 7       # thorough tier: pairs on bodies up to 120 bytes
             b, parts, epi = gen_body(rng, small=small)
             body = encode(b, parts, epi)
             tlen = len(delim(b))
-            L = min(len(body), 60 if small else 300)
+            L = min(len(body), 120 if medium else 60 if small else 300)
             for plen in range(0, L + 1):
                 p = body[:plen]
                 one = real_parse(b, [p])
                 sets = [[c] for c in range(1, plen)]
-                if small and plen <= 48:
+                if (small and plen <= 48) or medium:
                     sets += [[a, c] for a in range(1, plen) for c in range(a + 1, plen)]
                 sets.append(list(range(1, plen)))
                 sets += [stride_cuts(plen, k) for k in (2, 3, 4, 5, 7, 8, 16, tlen - 1, tlen, tlen + 1) if 0 < k < plen]
+                if plen == L:
+                    sets += [stride_cuts(plen, k) for k in range(1, 17) if k < plen]
                 sets.append(random_cuts(rng, plen))
                 for s in sets:
                     evals += 1
